@@ -203,6 +203,15 @@ def run(ctx):
     except (TranslateError, OSError, ValueError) as e:
         ctx.oblige("T-mods regenerated", False, "translator", str(e))
         ctx.violation("T-mods no longer parses the sources: %s" % e, {"translator": "t_mods", "error": str(e)}, found_input=False)
+    try:
+        from translators import t_gates
+        tg = t_gates.regenerate(common.REPO, common.ROOT, common.LEAN_DIR, common.write_if_changed)
+        ung = [(t, u) for t, o, u in tg["rows"] if u]
+        ctx.oblige("T-gates: call paths of %d token-modifying functions analysed" % len(tg["rows"]), True, "translator")
+        for t, u in ung[:3]:
+            ctx.log("T-gates: %s is reachable without a test of a mod_ option: %s" % (t, " -> ".join(u)))
+    except (TranslateError, OSError, ValueError, KeyError) as e:
+        ctx.oblige("T-gates regenerated", False, "translator", str(e))
     ctx.lean_obligations()
     exe = common.build_repo(hooks=True)
     thorough = ctx.tier == "thorough"
